@@ -258,6 +258,16 @@ theorem too_small_rejected_on_every_entry_point (S : SE B DM) (L : Laws S) (max 
   rw [hpass]
   exact too_small_rejected S L max fuel data hsmall
 
+/-- python.rs `encrypt` goes to the third-party crate directly; a too-small input is the crate's own error there as well
+(the binding is otherwise outside the round-trip theorems: what it returns is not a `DataMapLevel` chunk the client's
+reads accept — declared uncovered, see DESIGN). -/
+theorem too_small_rejected_python (S : SE B DM) (L : Laws S) (data : B) (hsmall : S.len data < 3) :
+    pythonEncrypt S data = none := by
+  unfold pythonEncrypt
+  split
+  · exact (L.enc_none_iff_small data).2 hsmall
+  · rfl
+
 /-- and what an entry point accepts is exactly what `encrypt` makes of the caller's own bytes, hence reads back as
 them (`fetch_pack_roundtrip`). -/
 theorem entry_roundtrip (S : SE B DM) (L : Laws S) (max fuel : Nat) (pre : B → B) (data : B) (e : Entry)
@@ -526,6 +536,7 @@ end SafeNet.Props.C14
 #print axioms SafeNet.Props.C14.too_small_rejected
 #print axioms SafeNet.Props.C14.too_small_rejected_on_every_entry_point
 #print axioms SafeNet.Props.C14.entry_roundtrip
+#print axioms SafeNet.Props.C14.too_small_rejected_python
 #print axioms SafeNet.Props.C14.fetch_pack_roundtrip_store
 #print axioms SafeNet.Props.C14.uploaded_is_everything
 #print axioms SafeNet.Props.C14.put_then_get_roundtrips
